@@ -55,6 +55,9 @@ theorem stepLine_safe (safeKeys : List Bytes) (st : State) (line : Bytes) :
     ∃ add : List (Bytes × Bytes), (stepLine safeKeys true st line).vals = st.vals ++ add ∧
       ∀ kv ∈ add, Documented safeKeys kv.1 := by
   unfold stepLine
+  split
+  · exact ⟨rfl, [], by simp, by simp⟩
+  unfold stepKV
   generalize kvOf line = kv0
   obtain ⟨key, val⟩ := kv0
   simp only
@@ -90,6 +93,9 @@ theorem stepLine_vals_append (safeKeys : List Bytes) (os : Bool) (st : State) (l
     ∃ add, (stepLine safeKeys os st line).vals = st.vals ++ add ∧
       ∀ st', (stepLine safeKeys os st' line).vals = st'.vals ++ add := by
   unfold stepLine
+  split
+  · exact ⟨[], by simp, by simp⟩
+  unfold stepKV
   generalize kvOf line = kv0
   obtain ⟨key, val⟩ := kv0
   simp only
